@@ -88,11 +88,43 @@ def group_under_net(draw):
 
 
 @st.composite
+def adjacent_run_group(draw):
+    """top = a group listing 2..4 CONSECUTIVE equal-size networks (an odd start index gives neighbours that are
+    not siblings); bottom = the block just below / above the run, a block inside it, or their common supernet."""
+    plen = draw(st.integers(16, 30))
+    size = 1 << (32 - plen)
+    start = draw(st.integers(1, 200))
+    n = draw(st.integers(2, 4))
+    base0 = (G.POOL_BASE & ~(size * 256 - 1) & R.ALL1) + start * size
+    mem = [[(base0 + i * size) & R.ALL1, size - 1] for i in range(n)]
+    where = draw(st.sampled_from(["below", "above", "inside", "super", "below-half"]))
+    if where == "below":
+        b = [(base0 - size) & R.ALL1, size - 1]
+    elif where == "above":
+        b = [(base0 + n * size) & R.ALL1, size - 1]
+    elif where == "inside":
+        b = [(base0 + draw(st.integers(0, n - 1)) * size) & R.ALL1, size - 1]
+    elif where == "super":
+        w2 = 2 * size - 1
+        b = [base0 & ~w2 & R.ALL1, w2]
+    else:
+        b = [(base0 - size // 2) & R.ALL1 if size > 1 else (base0 - 1) & R.ALL1, max(size // 2 - 1, 0)]
+    top = {"k": "group", "b": 0, "w": 0, "n": "G1", "m": mem}
+    bottom = {"k": "wild" if draw(st.booleans()) else "prefix", "b": b[0], "w": b[1]}
+    return top, bottom
+
+
+@st.composite
 def addr_pair_st(draw, tier):
-    if draw(st.sampled_from(range(5))) == 0:
+    mode = draw(st.sampled_from(range(10)))
+    if mode < 2:
         a, b = draw(group_under_net())
         return {"a": a, "b": b, "pa": draw(st.sampled_from(["ios", "nxos"])), "pb": draw(st.sampled_from(["ios", "nxos"]))}
-    kmax = draw(st.sampled_from([4, 4, 4, 4, 7]))  # 2^7 x 2^7 prefixes: large expansions, still cheap
+    if mode == 2:
+        a, b = draw(adjacent_run_group())
+        return {"a": a, "b": b, "pa": draw(st.sampled_from(["ios", "nxos"])), "pb": draw(st.sampled_from(["ios", "nxos"]))}
+    # 2^9 x 2^9 prefixes once in a while: the library's cover test may switch strategy with size
+    kmax = draw(st.sampled_from([4, 4, 4, 4, 4, 4, 7, 7, 9]))  # 2^7 x 2^7 prefixes: large expansions, still cheap
     a = draw(G.addr_st(kmax=kmax, groups=True))
     b = draw(G.mutate_addr(a, kmax=kmax, groups=True))
     if draw(st.integers(0, 2)) == 0:
